@@ -24,8 +24,14 @@ class TaskErr(Exception):
     pass
 
 
+class FalsyErr(TaskErr):
+    """An exception object that is falsy (an empty collection of errors, say): raised like any other."""
+    def __len__(self):
+        return 0
+
+
 class FutRun(object):
-    def __init__(self, raises, nreg, cbkinds, retobj=None):
+    def __init__(self, raises, nreg, cbkinds, retobj=None, falsy_exc=False):
         self.raises, self.nreg, self.cbkinds = raises, nreg, cbkinds
         S = self.S = detsched.Sched()
         H = self.H = Hooks()
@@ -36,7 +42,7 @@ class FutRun(object):
         tp = self.tp = detsched.load_module_with_shims("jsonrpclib.threadpool", th, qm)
         H.srcfile = tp.__file__
         self.taskdone = False
-        self.obj, self.exc = (retobj if retobj is not None else object()), TaskErr("task failed")
+        self.obj, self.exc = (retobj if retobj is not None else object()), (FalsyErr if falsy_exc else TaskErr)("task failed")
         self.obs_td = False
         self.reg = {r: {"call": 0, "ret": 0} for r in range(1, nreg + 1)}
         self.completion = 0
@@ -221,7 +227,7 @@ def random_trace(seed):
     kinds = [rnd.choice(["returns", "returns", "raises", "arity"]) for _ in range(nreg)]
     # the task returns "any object": an ordinary object, an Exception instance (returned, not raised), falsy values
     retobj = rnd.choice([None, None, ValueError("returned, not raised"), KeyError("k"), 0, "", [], False, TaskErr("returned")])
-    R = FutRun(raises, nreg, kinds, retobj)
+    R = FutRun(raises, nreg, kinds, retobj, falsy_exc=rnd.random() < 0.3)
     obs = [rnd.choice(["done", "result"]) for _ in range(rnd.randint(0, 4))]
     R.spawn_all(obs)
     S = R.S
